@@ -218,7 +218,7 @@ func checkTree(c treeCase) (h.Info, error) {
 		}
 		var le leafErr
 		isFirst := err != nil && ((errors.As(err, &le) && le.idx == first) || strings.Contains(err.Error(), leafErr{first}.Error()))
-		if got != nil || !isFirst {
+		if len(got) != 0 || !isFirst { // "instead of a hash": no digest next to the error; nil or empty is not prescribed
 			return info, fmt.Errorf("Hash with failing leaves %v: got %x, %v; want (nil, error of leaf %d)", c.Fail, got, err, first)
 		}
 		return info, nil
